@@ -32,7 +32,8 @@ package handler
 //@ ensures[C01] r0 != nil && r0.MessageType >= 0 && r1 == nil ==> ValidFrame(r0.RawData) && r0.MessageType == bits(r0.RawData, 24, 12)
 //@ ensures[C01] r0 != nil && r0.MessageType >= 0 && !(len(bitStream) >= 5 && bits(bitStream, 14, 10) == 0) ==> ValidFrame(r0.RawData) && r0.MessageType == bits(r0.RawData, 24, 12)
 //@ ensures[C02] r1 != nil ==> errmsg(r1) != "done"
-//@ ensures[C02] len(bitStream) > 0 ==> r0 != nil && fresh(r0)
+//@ ensures[C02,C07] len(bitStream) > 0 ==> r0 != nil
+//@ ensures[C02] len(bitStream) > 0 ==> fresh(r0)
 //@ ensures[C02] r0 != nil ==> arrof(r0.RawData) == arrof(bitStream) && offof(r0.RawData) == offof(bitStream)
 //@ ensures[C02] r0 != nil ==> len(r0.RawData) == len(bitStream) || (leaderOK(bitStream) && len(r0.RawData) == bits(bitStream, 14, 10) + 6 && len(r0.RawData) < len(bitStream))
 //@ ensures[C03] ValidFrame(bitStream) ==> r0 != nil && r0.MessageType == bits(bitStream, 24, 12)
@@ -47,16 +48,18 @@ package handler
 //@ requires[C07] pc != nil && pc.byteChan != nil
 //@ modifies pc.pushBackBuffer, recv(pc.byteChan)
 //@ ensures fresh(r0)
-//@ ensures[C02] seqeq(r0, pc.I, old(pc.cur), pc.cur) && pc.cur >= old(pc.cur) && pc.cur <= pc.N
+//@ ensures[C02,C07] len(r0) == pc.cur - old(pc.cur) && pc.cur >= old(pc.cur) && pc.cur <= pc.N
+//@ ensures[C02] seqeq(r0, pc.I, old(pc.cur), pc.cur)
 //@ ensures[C03] forall(k, old(pc.cur), pc.cur - 1, pc.I[k] != 0xd3)
-//@ ensures[C02] r1 == nil ==> pc.cur > old(pc.cur) && pc.I[pc.cur-1] == 0xd3
-//@ ensures[C02] r1 != nil ==> pc.cur == pc.N && errmsg(r1) == "done"
+//@ ensures[C02,C07] r1 == nil ==> pc.cur > old(pc.cur)
+//@ ensures[C02] r1 == nil ==> pc.I[pc.cur-1] == 0xd3
+//@ ensures[C02,C07] r1 != nil ==> pc.cur == pc.N && errmsg(r1) == "done"
 //@ ensures[C03] r1 != nil && pc.cur > old(pc.cur) ==> pc.I[pc.cur-1] != 0xd3
 //@ ensures[C02] pc.pbn == ite(old(pc.pbn) > pc.cur - old(pc.cur), old(pc.pbn) - (pc.cur - old(pc.cur)), 0)
 //@ loop 1
 //@ invariant fresh(stuff)
-//@ invariant[C02,C07] pc.cur <= pc.N
-//@ invariant[C02] seqeq(stuff, pc.I, old(pc.cur), pc.cur) && pc.cur >= old(pc.cur)
+//@ invariant[C02,C07] pc.cur <= pc.N && len(stuff) == pc.cur - old(pc.cur) && pc.cur >= old(pc.cur)
+//@ invariant[C02] seqeq(stuff, pc.I, old(pc.cur), pc.cur)
 //@ invariant[C03] forall(k, old(pc.cur), pc.cur, pc.I[k] != 0xd3)
 //@ invariant[C02] pc.pbn == ite(old(pc.pbn) > pc.cur - old(pc.cur), old(pc.pbn) - (pc.cur - old(pc.cur)), 0)
 //@ decreases pc.N - pc.cur
@@ -68,9 +71,12 @@ package handler
 //@ let I = pc.I
 //@ let N = pc.N
 //@ modifies rtcmHandler, pc.pushBackBuffer, recv(pc.byteChan), elems(pc.pushBackBuffer)
-//@ ensures[C02] pc.pbn <= 1 && pc.cur <= N && pc.cur >= c0
-//@ ensures[C02] r0 == nil ==> c0 == N && r1 != nil && errmsg(r1) == "done" && pc.cur == c0
-//@ ensures[C02] r0 != nil ==> pc.cur > c0 && seqeq(r0.RawData, I, c0, pc.cur) && fresh(r0) && (r1 == nil || errmsg(r1) != "done")
+//@ ensures[C02] pc.pbn <= 1
+//@ ensures[C02,C07] pc.cur <= N && pc.cur >= c0
+//@ ensures[C02,C07] r0 == nil ==> r1 != nil && errmsg(r1) == "done"
+//@ ensures[C02] r0 == nil ==> c0 == N && pc.cur == c0
+//@ ensures[C02,C07] r0 != nil ==> pc.cur > c0
+//@ ensures[C02] r0 != nil ==> seqeq(r0.RawData, I, c0, pc.cur) && fresh(r0) && (r1 == nil || errmsg(r1) != "done")
 //@ ensures[C01] r0 != nil && r0.MessageType >= 0 ==> ValidFrame(r0.RawData) && r0.MessageType == bits(r0.RawData, 24, 12)
 //@ ensures[C03] r0 != nil ==> SegJunk(I, N, c0, pc.cur, r0.MessageType)
 //@ ensures[C03] r0 != nil ==> SegFrame(I, N, c0, pc.cur, r0.MessageType)
@@ -78,7 +84,8 @@ package handler
 //@ ensures[C12] r0 != nil ==> SegCorrupt(I, N, c0, pc.cur, r0.MessageType)
 //@ loop 1
 //@ invariant 1 <= i && i <= 5 && fresh(frame)
-//@ invariant[C02] len(frame) == i && pc.cur == c0 + i && pc.pbn == 0 && pc.cur <= N
+//@ invariant[C02,C07] pc.cur >= c0 + 1 && pc.cur <= N
+//@ invariant[C02] len(frame) == i && pc.cur == c0 + i && pc.pbn == 0
 //@ invariant[C02] seqeq(frame, I, c0, pc.cur)
 //@ invariant[C03,C12] eatError == nil ==> I[c0] == 0xd3
 //@ invariant[C03,C12] eatError != nil ==> pc.cur == N && I[c0] != 0xd3
@@ -86,7 +93,8 @@ package handler
 //@ loop 2
 //@ invariant 0 <= i && fresh(frame) && len(frame) >= 5
 //@ invariant[C01] bits(frame, 14, 10) == messageLength
-//@ invariant[C02] i <= wantBytes && len(frame) == 5 + i && pc.cur == c0 + 5 + i && pc.pbn == 0 && pc.cur <= N
+//@ invariant[C02,C07] pc.cur >= c0 + 1 && pc.cur <= N
+//@ invariant[C02] i <= wantBytes && len(frame) == 5 + i && pc.cur == c0 + 5 + i && pc.pbn == 0
 //@ invariant[C02] seqeq(frame, I, c0, pc.cur)
 //@ invariant[C03,C12] leaderAt(I, N, c0) && messageLength == lenAt(I, c0)
 //@ decreases wantBytes - i
@@ -112,10 +120,40 @@ package handler
 //@ loop 1
 //@ invariant HandlerInv(rtcmHandler)
 //@ invariant pb != nil && fresh(pb) && !closed(ch_out) && sentn(ch_out) >= n0 && pb.byteChan == ch_in
-//@ invariant[C02,C07] pb.pbn <= 1 && pb.cur <= N
+//@ invariant[C02,C07] pb.cur <= N
+//@ invariant[C02] pb.pbn <= 1
 //@ invariant[C02] pb.cur == ite(sentn(ch_out) == n0, s0, stamp(ch_out)[sentn(ch_out)-1])
 //@ invariant[C02] forall(k, n0, sentn(ch_out), tile(sent(ch_out)[k].RawData, I, ite(k == n0, s0, stamp(ch_out)[k-1]), stamp(ch_out)[k]))
 //@ invariant[C01] forall(k, n0, sentn(ch_out), sent(ch_out)[k].MessageType >= 0 ==> ValidFrame(sent(ch_out)[k].RawData) && sent(ch_out)[k].MessageType == bits(sent(ch_out)[k].RawData, 24, 12))
 //@ invariant[C03] forall(k, n0, sentn(ch_out), SegJunk(I, N, ite(k == n0, s0, stamp(ch_out)[k-1]), stamp(ch_out)[k], sent(ch_out)[k].MessageType) && SegFrame(I, N, ite(k == n0, s0, stamp(ch_out)[k-1]), stamp(ch_out)[k], sent(ch_out)[k].MessageType) && SegTrunc(I, N, ite(k == n0, s0, stamp(ch_out)[k-1]), stamp(ch_out)[k], sent(ch_out)[k].MessageType))
 //@ invariant[C12] forall(k, n0, sentn(ch_out), SegCorrupt(I, N, ite(k == n0, s0, stamp(ch_out)[k-1]), stamp(ch_out)[k], sent(ch_out)[k].MessageType))
 //@ decreases N - pb.cur
+
+// ReadableWF: what String relies on in a message's decoded form.  Messages
+// delivered by the framing have Readable == nil; Analyse establishes the rest.
+//@ define MSM7WF(p) = p.Header != nil && forall(k, 0, len(p.Signals), forall(l, 0, len(p.Signals[k]), p.Signals[k][l].Satellite != nil))
+//@ define ReadableWF(m) = m.Readable == nil || typeis(m.Readable, "string") || ((typeis(m.Readable, "*github.com/goblimey/go-ntrip/rtcm/type1005.Message") || typeis(m.Readable, "*github.com/goblimey/go-ntrip/rtcm/type1006.Message")) && unbox(m.Readable) != 0) || (typeis(m.Readable, "*github.com/goblimey/go-ntrip/rtcm/type_msm4/message.Message") && unbox(m.Readable) != 0 && ptr(unbox(m.Readable), "github.com/goblimey/go-ntrip/rtcm/type_msm4/message.Message").Header != nil) || (typeis(m.Readable, "*github.com/goblimey/go-ntrip/rtcm/type_msm7/message.Message") && unbox(m.Readable) != 0 && MSM7WF(ptr(unbox(m.Readable), "github.com/goblimey/go-ntrip/rtcm/type_msm7/message.Message")))
+
+//@ func Analyse
+//@ requires[C07] message != nil
+//@ modifies message
+//@ ensures[C07] old(message.Readable) == nil ==> ReadableWF(message)
+//@ ensures[C15] message.RawData == old(message.RawData) && message.MessageType == old(message.MessageType) && message.LogLevel == old(message.LogLevel)
+//@ ensures[C20] !(isMSM(message.MessageType) || message.MessageType == 1005 || message.MessageType == 1006) ==> typeis(message.Readable, "string") && message.ErrorMessage == old(message.ErrorMessage)
+//@ ensures[C20] isMSM4(message.MessageType) ==> typeis(message.Readable, "*github.com/goblimey/go-ntrip/rtcm/type_msm4/message.Message") || message.Readable == old(message.Readable)
+//@ ensures[C20] isMSM7(message.MessageType) ==> typeis(message.Readable, "*github.com/goblimey/go-ntrip/rtcm/type_msm7/message.Message") || message.Readable == old(message.Readable)
+//@ ensures[C20] message.MessageType == 1005 ==> typeis(message.Readable, "*github.com/goblimey/go-ntrip/rtcm/type1005.Message") || message.Readable == old(message.Readable)
+//@ ensures[C20] message.MessageType == 1006 ==> typeis(message.Readable, "*github.com/goblimey/go-ntrip/rtcm/type1006.Message") || message.Readable == old(message.Readable)
+
+//@ func PrepareForDisplay
+//@ requires[C07] message != nil
+//@ requires[C07] ReadableWF(message)
+//@ modifies message
+//@ ensures[C07] ReadableWF(message)
+
+//@ func (*Message).String
+//@ requires[C07] message != nil
+//@ requires[C07] ReadableWF(message)
+//@ modifies message
+//@ arith wrap
+//@ ensures[C15] message.RawData == old(message.RawData)
